@@ -8,31 +8,34 @@ Composition of
   (`optimize_preserves_output`, nesting fuel 1: no assumption on nested calls), whose hypotheses
   `DecOK` / `OtherNoTarget` / `TargetsInRange` / `PathSpans` p2_pipeline discharged for compiled
   chunks with the positional decoder of `storeChunk` (Lemmas/PipelineVerify.lean, PipelineStore.lean).
+
+Theorems
+* `stored_run`: one `interpret` call on the stored chunk of an include-free in-domain statement
+  list gives the evaluator's text, or a rendering error where the evaluator fails;
+* `render_correct_optimized` (the original `vm_refines_spec`, include-free): `Tera.render`
+  (evaluator) against `Vm.render` on the stored chunk;
+* `source_to_output_semantics`: source TEXT through `Pipeline.renderSourcesT` (lexer, whitespace
+  filter, parser, compiler, optimiser, registry, VM) against the evaluator on the parsed AST.
+Any nesting fuel `≥ 1`, any step fuel `≥ N` (`N` depends on the run only).
+
+Glue proved for this (Lemmas/RefineOpt.lean, RefineOptPipe.lean): the compiled code of an
+include-free in-domain AST has no `Include` (so its runs do not depend on the nested interpreter
+and `C09Vm` applies with nesting fuel 1, where it needs no assumption); an `interpret` call that
+ends with nesting fuel 1 ends the same way with any (`run_depth_irrel`); `Refine.embed` IS
+`Pipeline.typedCode`; the entry of the VM's table after a one-source `addTemplatesT`.
+
+Outside (named propositions at the end): `include` across the optimiser
+(`render_correct_optimized_includes`), the error CLASS across the optimiser
+(`render_correct_optimized_error_class`: `C09Vm` relates "a rendering error" to "a rendering
+error"), `parents = []` from a source without `extends` (`single_source_no_parents`; a hypothesis
+of `source_to_output_semantics`).  Blocks / inheritance: C04Vm; component calls: C05Vm (the
+evaluator does not model them).
 -/
 import TeraModel.Props.Refine
 import TeraModel.Props.C09Vm
-import TeraModel.Lemmas.RefineOpt
-import TeraModel.Lemmas.PipelineT
+import TeraModel.Lemmas.RefineOptPipe
 namespace Tera.RefineE2E
 open Tera Tera.Vm Tera.Compiler Tera.Refine
-
-/-- what `storeChunk` answered, taken apart -/
-theorem storeChunk_inv (cname : String) (code : Code) (ch : Chunk)
-    (h : Pipeline.storeChunk cname code = .ok ch) :
-    ∃ c' code', Optimize.optimize (Pipeline.encode code) = .ok c' ∧
-      Pipeline.decodeAll code c' = some code' ∧ ch = ⟨cname, code'⟩ := by
-  unfold Pipeline.storeChunk at h
-  cases hopt : Optimize.optimize (Pipeline.encode code) with
-  | panic s => rw [hopt] at h; cases h
-  | ok c' =>
-    rw [hopt] at h
-    simp only at h
-    cases hd : Pipeline.decodeAll code c' with
-    | none => rw [hd] at h; cases h
-    | some code' =>
-      rw [hd] at h
-      simp only [Pipeline.Stored.ok.injEq] at h
-      exact ⟨c', code', rfl, hd, h.symm⟩
 
 /-- One `interpret` call on the STORED chunk of an include-free in-domain statement list, from the
 state `render` starts in: the evaluator's text, or a rendering error when the evaluator fails. -/
@@ -43,12 +46,14 @@ theorem stored_run (venv : Vm.Env) (eenv : Tera.Env) (hE : EnvRel venv eenv)
     (ctx g : Ctx) (fuel : Nat) :
     (∀ est', execNodes fuel eenv vm.autoescape
         { scope := Scope.root ctx g, out := [], captures := [] } nodes = .ok (est', .normal) →
-      ∃ N, ∀ steps, N ≤ steps → ∃ st', Vm.run ⟨1, steps⟩ venv vm ch (entryState none ctx g) = .done st'
-        ∧ st'.out = est'.out)
+      ∃ N, ∀ steps depth, N ≤ steps →
+        ∃ st', Vm.run ⟨depth + 1, steps⟩ venv vm ch (entryState none ctx g) = .done st'
+          ∧ st'.out = est'.out)
     ∧ (∀ err, execNodes fuel eenv vm.autoescape
         { scope := Scope.root ctx g, out := [], captures := [] } nodes = .error err →
       reportable err = true →
-      ∃ N, ∀ steps, N ≤ steps → ∃ re, Vm.run ⟨1, steps⟩ venv vm ch (entryState none ctx g) = .err re) := by
+      ∃ N, ∀ steps depth, N ≤ steps →
+        ∃ re, Vm.run ⟨depth + 1, steps⟩ venv vm ch (entryState none ctx g) = .err re) := by
   obtain ⟨c', code', hopt, hd, rfl⟩ := storeChunk_inv _ _ ch hst
   obtain ⟨tcode, htyped⟩ := typedCode_nodes nodes
   have hemb : embed (nodesCode 0 none nodes) = some tcode := htyped
@@ -86,7 +91,7 @@ theorem stored_run (venv : Vm.Env) (eenv : Tera.Env) (hE : EnvRel venv eenv)
     have hrun' : RunI venv vm ⟨vm.template.name, tcode⟩ 0 (entryState none ctx g) tr
         (0 + (nodesCode 0 none nodes).length) (withSc (entryState none ctx g) est' sc') := hrun
     have hrun'' := hrun'.toRun hno
-    refine ⟨tr.length, fun steps hsteps => ?_⟩
+    refine ⟨tr.length, fun steps depth hsteps => ?_⟩
     have hdone : Vm.run ⟨1, steps⟩ venv vm ⟨vm.template.name, tcode⟩ (entryState none ctx g)
         = .done (withSc (entryState none ctx g) est' sc') := by
       rw [hrunEq]
@@ -97,7 +102,9 @@ theorem stored_run (venv : Vm.Env) (eenv : Tera.Env) (hE : EnvRel venv eenv)
     have hb := hbridge steps (by rw [hdone]; intro h; cases h)
     rw [hdone] at hb
     cases hr' : Vm.run ⟨1, steps⟩ venv vm ⟨vm.template.name, code'⟩ (entryState none ctx g) with
-    | done b => rw [hr'] at hb; exact ⟨b, rfl, hb.1⟩
+    | done b =>
+      rw [hr'] at hb
+      exact ⟨b, by rw [run_depth_irrel _ _ _ _ _ _ (by rw [hr']; intro h; cases h), hr'], hb.1⟩
     | err e => rw [hr'] at hb; exact hb.elim
     | panic s => rw [hr'] at hb; exact hb.elim
     | unmodelled w => rw [hr'] at hb; exact hb.elim
@@ -106,7 +113,7 @@ theorem stored_run (venv : Vm.Env) (eenv : Tera.Env) (hE : EnvRel venv eenv)
     rw [hv] at hsim
     obtain ⟨tr, re, hf, _, _, _⟩ := hsim hrep
     have hf' := hf.toFails hno
-    refine ⟨tr.length, fun steps hsteps => ?_⟩
+    refine ⟨tr.length, fun steps depth hsteps => ?_⟩
     have herr : Vm.run ⟨1, steps⟩ venv vm ⟨vm.template.name, tcode⟩ (entryState none ctx g) = .err re := by
       rw [hrunEq]
       have := hf'.runLoop (interp venv steps 0) (steps - tr.length)
@@ -115,7 +122,7 @@ theorem stored_run (venv : Vm.Env) (eenv : Tera.Env) (hE : EnvRel venv eenv)
     have hb := hbridge steps (by rw [herr]; intro h; cases h)
     rw [herr] at hb
     cases hr' : Vm.run ⟨1, steps⟩ venv vm ⟨vm.template.name, code'⟩ (entryState none ctx g) with
-    | err e => exact ⟨e, rfl⟩
+    | err e => exact ⟨e, by rw [run_depth_irrel _ _ _ _ _ _ (by rw [hr']; intro h; cases h), hr']⟩
     | done b => rw [hr'] at hb; exact hb.elim
     | panic s => rw [hr'] at hb; exact hb.elim
     | unmodelled w => rw [hr'] at hb; exact hb.elim
@@ -128,7 +135,8 @@ table holds under `name` a template without parents whose chunk IS what the pipe
 evaluator's table holds the body with the same autoescape flag, then what `Tera.render`
 (the evaluator) gives, `Vm.render` gives on the optimised chunk: the same text; and when the
 evaluator fails with a reportable error, a rendering error (not a panic, not `unmodelled`, not out
-of fuel).  Nesting fuel 1 (nothing is nested in an include-free template), any step fuel `≥ N`.
+of fuel).  Any nesting fuel `≥ 1` (nothing is nested in an include-free template: `run_depth_irrel`),
+any step fuel `≥ N`.
 The error CLASS is not carried across the optimiser: `C09Vm` relates "a rendering error" to "a
 rendering error" (a fused load names a missing root differently); on the unoptimised chunk the
 class is the evaluator's (`Refine.render_correct_core`). -/
@@ -139,18 +147,20 @@ theorem render_correct_optimized (venv : Vm.Env) (eenv : Tera.Env) (hE : EnvRel 
     (he : eenv.template name = some ⟨nodes, tpl.autoescape⟩)
     (hcheck : nodesInCore [] false nodes = true) (ctx g : Ctx) (fuel : Nat) :
     (∀ text, Tera.render fuel eenv name ctx g = .ok text →
-      ∃ N, ∀ steps, N ≤ steps → Vm.render ⟨1, steps⟩ venv name none ctx g = .ok text)
+      ∃ N, ∀ steps depth, N ≤ steps → Vm.render ⟨depth + 1, steps⟩ venv name none ctx g = .ok text)
     ∧ (∀ err, Tera.render fuel eenv name ctx g = .error err → reportable err = true →
-      ∃ N, ∀ steps, N ≤ steps → ∃ re, Vm.render ⟨1, steps⟩ venv name none ctx g = .err re) := by
+      ∃ N, ∀ steps depth, N ≤ steps →
+        ∃ re, Vm.render ⟨depth + 1, steps⟩ venv name none ctx g = .err re) := by
   have hS := stored_run venv eenv hE hB { template := tpl, autoescapeOverride := none, depth := 0 } rfl
     nodes hcheck tpl.chunk hst ctx g fuel
   have hae : ({ template := tpl, autoescapeOverride := none, depth := 0 } : VmCtx).autoescape
       = tpl.autoescape := rfl
   rw [hae] at hS
-  have hrender : ∀ steps, Vm.render ⟨1, steps⟩ venv name none ctx g
-      = outcomeOf none (Vm.run ⟨1, steps⟩ venv { template := tpl, autoescapeOverride := none, depth := 0 }
+  have hrender : ∀ steps depth, Vm.render ⟨depth + 1, steps⟩ venv name none ctx g
+      = outcomeOf none (Vm.run ⟨depth + 1, steps⟩ venv
+          { template := tpl, autoescapeOverride := none, depth := 0 }
           tpl.chunk (entryState none ctx g)) := by
-    intro steps
+    intro steps depth
     simp only [Vm.render, hv, lineageMissing, Bool.false_eq_true, if_false, entryChunk, hpar,
       List.head?_nil]
   constructor
@@ -165,8 +175,8 @@ theorem render_correct_optimized (venv : Vm.Env) (eenv : Tera.Env) (hE : EnvRel 
       | normal =>
         simp only [hr, Except.ok.injEq] at htext
         obtain ⟨N, hN⟩ := hS.1 est' hr
-        refine ⟨N, fun steps hsteps => ?_⟩
-        obtain ⟨st', hrun, hout⟩ := hN steps hsteps
+        refine ⟨N, fun steps depth hsteps => ?_⟩
+        obtain ⟨st', hrun, hout⟩ := hN steps depth hsteps
         rw [hrender, hrun]
         simp only [outcomeOf, Option.isSome_none, Bool.false_eq_true, if_false, hout, htext]
       | brk => simp [hr] at htext
@@ -185,97 +195,11 @@ theorem render_correct_optimized (venv : Vm.Env) (eenv : Tera.Env) (hE : EnvRel 
       simp only [hr, Except.error.injEq] at herr
       subst herr
       obtain ⟨N, hN⟩ := hS.2 err' hr hrep
-      refine ⟨N, fun steps hsteps => ?_⟩
-      obtain ⟨re, hrun⟩ := hN steps hsteps
+      refine ⟨N, fun steps depth hsteps => ?_⟩
+      obtain ⟨re, hrun⟩ := hN steps depth hsteps
       exact ⟨re, by rw [hrender, hrun]; rfl⟩
 
 /-! ## From source text -/
-
-/-- `Template::new` on a source that parses to `t`: the stored main chunk is
-`storeChunk name (compile t.nodes)` -/
-theorem newTemplate_main (d : Delims) (name : String) (src : Tera.Bytes) (t : Template)
-    (td : Pipeline.TemplateData) (hf : Pipeline.front d src = .ok t)
-    (h : Pipeline.newTemplate d name src = .ok td) :
-    td.name = name ∧ Pipeline.storeChunk name (nodesCode 0 none t.nodes) = .ok td.main := by
-  unfold Pipeline.newTemplate at h
-  rw [hf] at h
-  simp only at h
-  cases hc : compileTemplate t with
-  | error site => rw [hc] at h; cases h
-  | ok c =>
-    rw [hc] at h
-    simp only at h
-    have hmain := (Pipeline.chunks_are_nodes t c hc).1
-    split at h
-    case h_1 main blocks comps h1 h2 h3 =>
-      simp only [Pipeline.NewRes.ok.injEq] at h
-      subst h
-      rw [hmain] at h1
-      exact ⟨rfl, h1⟩
-    all_goals cases h
-
-/-- the entry of the VM's template table for the only template of a one-source batch -/
-theorem single_template_entry (cfg : Pipeline.Config) (name : String) (src : Tera.Bytes)
-    (t : Template) (env : Pipeline.Env) (hf : Pipeline.front cfg.delims src = .ok t)
-    (hadd : Pipeline.addTemplatesT cfg [(name, src)] = .ok env) (tpl : TemplateInfo)
-    (htpl : env.template name = some tpl) :
-    tpl.name = name ∧ Pipeline.storeChunk tpl.name (nodesCode 0 none t.nodes) = .ok tpl.chunk := by
-  obtain ⟨tds, st, hnew, _, hbuild⟩ := Pipeline.addTemplatesT_inv cfg [(name, src)] env hadd
-  -- the batch is the one template
-  obtain ⟨td, rfl, htd⟩ : ∃ td, tds = [td] ∧ Pipeline.newTemplate cfg.delims name src = .ok td := by
-    simp only [Pipeline.newAll] at hnew
-    cases hn : Pipeline.newTemplate cfg.delims name src with
-    | ok td =>
-      rw [hn] at hnew
-      simp only [Except.ok.injEq] at hnew
-      exact ⟨td, hnew.symm, rfl⟩
-    | «syntax» => rw [hn] at hnew; cases hnew
-    | panic s => rw [hn] at hnew; cases hnew
-    | outOfFuel => rw [hn] at hnew; cases hnew
-    | internal w => rw [hn] at hnew; cases hnew
-  obtain ⟨hname, hmain⟩ := newTemplate_main cfg.delims name src t td hf htd
-  -- the table of the environment
-  unfold Pipeline.buildEnv at hbuild
-  cases hi : Pipeline.infosOf (Pipeline.namedOf [td]) st.templates with
-  | none => rw [hi] at hbuild; simp at hbuild
-  | some tpls =>
-    cases hg : Pipeline.globalComponents (Pipeline.namedOf [td]) st.comps with
-    | none => rw [hi, hg] at hbuild; simp at hbuild
-    | some comps =>
-      rw [hi, hg] at hbuild
-      simp only [Option.some.injEq] at hbuild
-      subst hbuild
-      have hassoc : Vm.assoc name (tpls ++ Pipeline.includeAliases cfg.prefixes (st.templates.map (·.tpl)) tpls
-          ((st.templates.map (·.tpl)).flatMap (·.includeCalls))) = some tpl := htpl
-      obtain ⟨k, hmem⟩ := Pipeline.assoc_mem hassoc
-      -- in either half of the table the entry comes from `infoOf`
-      obtain ⟨r, hr⟩ : ∃ r, (r, tpl) ∈ tpls := by
-        rcases List.mem_append.mp hmem with h | h
-        · exact ⟨k, h⟩
-        · obtain ⟨r, hr⟩ := Pipeline.includeAliases_mem _ _ _ _ _ h
-          obtain ⟨r', hr'⟩ := Pipeline.assoc_mem hr
-          exact ⟨r', hr'⟩
-      obtain ⟨e, _, hinfo⟩ := (Pipeline.infosOf_spec _ st.templates tpls hi).2 _ hr
-      unfold Pipeline.infoOf at hinfo
-      cases hl : Pipeline.lookupLast e.tpl.name (Pipeline.namedOf [td]) with
-      | none => rw [hl] at hinfo; cases hinfo
-      | some td' =>
-        rw [hl] at hinfo
-        simp only at hinfo
-        cases hlin : Pipeline.lineagesOf (Pipeline.namedOf [td]) e.lineage with
-        | none => rw [hlin] at hinfo; cases hinfo
-        | some lin =>
-          rw [hlin] at hinfo
-          simp only [Option.some.injEq, Prod.mk.injEq] at hinfo
-          obtain ⟨_, htplEq⟩ := hinfo
-          have hmem' := Pipeline.lookupLast_mem _ _ _ hl
-          simp only [Pipeline.namedOf, List.map_cons, List.map_nil, List.mem_singleton,
-            Prod.mk.injEq] at hmem'
-          obtain ⟨hen, rfl⟩ := hmem'
-          subst htplEq
-          simp only
-          rw [hen, hname]
-          exact ⟨rfl, hmain⟩
 
 /-- **`source_to_output_semantics`**: the whole engine model — `Pipeline.renderSourcesT`: lexer,
 whitespace filter, parser, compiler, optimiser, registry, VM — computes the AST semantics.  For a
@@ -284,7 +208,7 @@ single source that the front end parses to `t`, whose body passes the domain che
 parents, rendering it through the pipeline gives the text the evaluator gives on `t.nodes` (with
 the autoescape flag the registry derived); when the evaluator fails with a reportable error the
 pipeline answers a rendering error (never a panic, `unmodelled`, out of fuel, or an add-time
-error).  Nesting fuel 1, any step fuel `≥ N`.  `eenv` is any evaluator environment that agrees
+error).  Any nesting fuel `≥ 1`, any step fuel `≥ N`.  `eenv` is any evaluator environment that agrees
 with the configuration's built-ins (`EnvRel`, `BuiltinsRel`) and holds the parsed body. -/
 theorem source_to_output_semantics (cfg : Pipeline.Config) (name : String) (src : Tera.Bytes)
     (t : Template) (env : Pipeline.Env) (hf : Pipeline.front cfg.delims src = .ok t)
@@ -294,11 +218,11 @@ theorem source_to_output_semantics (cfg : Pipeline.Config) (name : String) (src 
     (eenv : Tera.Env) (hE : EnvRel env eenv) (hB : BuiltinsRel env eenv)
     (he : eenv.template name = some ⟨t.nodes, tpl.autoescape⟩) (ctx : Ctx) (fuel : Nat) :
     (∀ text, Tera.render fuel eenv name ctx [] = .ok text →
-      ∃ N, ∀ steps, N ≤ steps →
-        Pipeline.renderSourcesT cfg [(name, src)] ⟨1, steps⟩ name ctx = .ok (.ok text))
+      ∃ N, ∀ steps depth, N ≤ steps →
+        Pipeline.renderSourcesT cfg [(name, src)] ⟨depth + 1, steps⟩ name ctx = .ok (.ok text))
     ∧ (∀ err, Tera.render fuel eenv name ctx [] = .error err → reportable err = true →
-      ∃ N, ∀ steps, N ≤ steps → ∃ re,
-        Pipeline.renderSourcesT cfg [(name, src)] ⟨1, steps⟩ name ctx = .ok (.err re)) := by
+      ∃ N, ∀ steps depth, N ≤ steps → ∃ re,
+        Pipeline.renderSourcesT cfg [(name, src)] ⟨depth + 1, steps⟩ name ctx = .ok (.err re)) := by
   obtain ⟨_, hst⟩ := single_template_entry cfg name src t env hf hadd tpl htpl
   have h := render_correct_optimized env eenv hE hB name tpl t.nodes htpl hpar hst he hcheck ctx [] fuel
   have hrs : ∀ fl, Pipeline.renderSourcesT cfg [(name, src)] fl name ctx
@@ -307,10 +231,104 @@ theorem source_to_output_semantics (cfg : Pipeline.Config) (name : String) (src 
     simp only [Pipeline.renderSourcesT, hadd, Pipeline.render]
   refine ⟨fun text ht => ?_, fun err herr hrep => ?_⟩
   · obtain ⟨N, hN⟩ := h.1 text ht
-    exact ⟨N, fun steps hs => by rw [hrs, hN steps hs]⟩
+    exact ⟨N, fun steps depth hs => by rw [hrs, hN steps depth hs]⟩
   · obtain ⟨N, hN⟩ := h.2 err herr hrep
-    refine ⟨N, fun steps hs => ?_⟩
-    obtain ⟨re, hre⟩ := hN steps hs
+    refine ⟨N, fun steps depth hs => ?_⟩
+    obtain ⟨re, hre⟩ := hN steps depth hs
     exact ⟨re, by rw [hrs, hre]⟩
+
+/-! ## What remains outside, as named propositions
+
+* blocks / inheritance (`tpl.parents ≠ []`, `RenderBlock`, `super()`): C04Vm; component calls: C05Vm —
+  the evaluator Model/Eval.lean does not model them (`Err.unsupported`), so there is nothing to
+  compose here.
+* `include` across the optimiser, the error class across the optimiser, and `parents = []` from
+  the source: the three propositions below. -/
+
+/-- The include lift: `Refine.render_correct_core` covers `include` on UNOPTIMISED chunks (runs
+through `Include` as derivations, `RunI.adequate`); `C09Vm.optimize_preserves_run` covers nested
+calls under `NestedOK`.  Composing them needs `NestedOK` for `Vm.interp` by induction on the
+include nesting of an environment ALL of whose chunks are stored (optimised) chunks — bC_opt's
+`C09Vm.optimize_preserves_render` is the same gap.  Statement: as `render_correct_optimized`, with
+`incs` includable templates related by `TemplatesRel` up to `storeChunk`, any nesting fuel `≥ D`. -/
+def render_correct_optimized_includes : Prop :=
+  ∀ (venv : Vm.Env) (eenv : Tera.Env), EnvRel venv eenv → BuiltinsRel venv eenv →
+  ∀ (incs : List String),
+    (∀ n ∈ incs, match eenv.template n with
+      | none => venv.template n = none
+      | some t => ∃ tpl, venv.template n = some tpl ∧
+          Pipeline.storeChunk tpl.name (nodesCode 0 none t.nodes) = .ok tpl.chunk ∧
+          tpl.autoescape = t.autoescape ∧ nodesInCore incs false t.nodes = true) →
+  ∀ (name : String) (tpl : TemplateInfo) (nodes : List Node),
+    venv.template name = some tpl → tpl.parents = [] →
+    Pipeline.storeChunk tpl.name (nodesCode 0 none nodes) = .ok tpl.chunk →
+    eenv.template name = some ⟨nodes, tpl.autoescape⟩ → nodesInCore incs false nodes = true →
+  ∀ (ctx g : Ctx) (fuel : Nat) (text : List Char), Tera.render fuel eenv name ctx g = .ok text →
+    ∃ N D, ∀ steps depth, N ≤ steps → D ≤ depth →
+      Vm.render ⟨depth + 1, steps⟩ venv name none ctx g = .ok text
+
+/-- The error class across the optimiser: `C09Vm.SameOutcome` relates any rendering error to any
+rendering error.  What should hold: the stored chunk fails in the evaluator's class, where the
+fused loads may say `undefinedVariable` for `undefinedField` / `undefinedRender` (all of them
+`Err.undefined` for `errMatch`). -/
+def render_correct_optimized_error_class : Prop :=
+  ∀ (venv : Vm.Env) (eenv : Tera.Env), EnvRel venv eenv → BuiltinsRel venv eenv →
+  ∀ (name : String) (tpl : TemplateInfo) (nodes : List Node),
+    venv.template name = some tpl → tpl.parents = [] →
+    Pipeline.storeChunk tpl.name (nodesCode 0 none nodes) = .ok tpl.chunk →
+    eenv.template name = some ⟨nodes, tpl.autoescape⟩ → nodesInCore [] false nodes = true →
+  ∀ (ctx g : Ctx) (fuel : Nat) (err : Err), Tera.render fuel eenv name ctx g = .error err →
+    reportable err = true →
+    ∃ N, ∀ steps depth, N ≤ steps → ∃ re, errMatch err re = true ∧
+      Vm.render ⟨depth + 1, steps⟩ venv name none ctx g = .err re
+
+/-- A source without `extends` is filed without parents (the registry derivation `find_parents`,
+C04 / C11): in `source_to_output_semantics` this is the hypothesis `tpl.parents = []`. -/
+def single_source_no_parents : Prop :=
+  ∀ (cfg : Pipeline.Config) (name : String) (src : Tera.Bytes) (t : Template) (env : Pipeline.Env),
+    Pipeline.front cfg.delims src = .ok t → t.parent = none →
+    Pipeline.addTemplatesT cfg [(name, src)] = .ok env →
+    ∀ tpl, env.template name = some tpl → tpl.parents = []
+
+/-! ## Spot checks: source text through the WHOLE pipeline model against the evaluator -/
+
+/-- a configuration whose built-in tables are the evaluator's (registered under their names) -/
+def exCfg : Pipeline.Config :=
+  { delims := Generated.defaultDelims, prefixes := [], suffixes := [".html"],
+    reg := { filters := ["safe", "default", "upper", "lower", "length", "str", "trim", "first", "last", "join"],
+             tests := ["defined", "undefined", "none", "string", "number", "integer", "float", "bool",
+                       "array", "map", "iterable", "odd", "even"],
+             functions := ["throw", "range"] },
+    builtins := { callFilter := fun n v kw => callOf (applyFilter exEenv n v kw),
+                  filterIsSafe := fun _ => false,
+                  callTest := fun n v _ => callOf ((applyTest n v).map Value.bool),
+                  callFunction := fun n kw => callOf (applyFunction n kw),
+                  functionIsSafe := fun _ => false, F := exF, fmtF64 := fun _ => [] } }
+
+/-- `Pipeline.renderSourcesT` (lexer … optimiser, registry, VM; nesting fuel 1) against
+`Tera.render` on the AST the front end parses, which must pass the domain check; the registry
+derives autoescape ON for `t.html` -/
+def agreeE2E (src : String) (ctx : Ctx) : Bool :=
+  match Pipeline.front exCfg.delims (srcOf src) with
+  | .ok t =>
+    nodesInCore [] false t.nodes &&
+    (match Tera.render 60 { exEenv with templates := [("t.html", ⟨t.nodes, true⟩)] } "t.html" ctx [],
+        Pipeline.renderSourcesT exCfg [("t.html", srcOf src)] ⟨1, 3000⟩ "t.html" ctx with
+    | .ok text, .ok (.ok text') => text == text' && !text.isEmpty
+    | .error err, .ok (.err re) => errMatch err re
+    | _, _ => false)
+  | _ => false
+
+example : agreeE2E ("Hello {{ name | upper }}! {% for x in xs %}{{ loop.index }}={{ x * 2 }}"
+    ++ "{% if not loop.last %}, {% endif %}{% else %}none{% endfor %}") srcCtx = true := by decide +kernel
+example : agreeE2E ("{{ [y + 1 for y in xs if y > 1] | length }} {% set t = a.b or 'd' %}"
+    ++ "{{ t if t else 'z' }}{% filter upper %}x{{ name }}{% endfilter %}") srcCtx = true := by
+  decide +kernel
+example : agreeE2E ("{% for k, v in m %}{{ k ~ '=' ~ v }}{% if v == 7 %}{% continue %}{% endif %};"
+    ++ "{% endfor %}{{ a.b }}{{ m.k }}{{ name }}") srcCtx = true := by decide +kernel
+/-- errors (here the class survives the optimiser: fused `LoadPath` / `WritePath`) -/
+example : agreeE2E "{{ zz.y }}" srcCtx = true := by decide +kernel
+example : agreeE2E "a{{ a.b.c }}" srcCtx = true := by decide +kernel
+example : agreeE2E "{{ xs | first + 'a' }}" srcCtx = true := by decide +kernel
 
 end Tera.RefineE2E
